@@ -495,19 +495,26 @@ func (env *specEnv) call(e *ast.CallExpr) Val {
 			return Val{ts: []Term{implies(env.eval(e.Args[0]).ts[0], env.eval(e.Args[1]).ts[0])}}
 		case "verif_iff":
 			return Val{ts: []Term{eq(env.eval(e.Args[0]).ts[0], env.eval(e.Args[1]).ts[0])}}
-		case "verif_fst", "verif_snd":
-			// projection of a two-result call: fst(f(x)), snd(f(x))
+		case "verif_fst", "verif_snd", "verif_fst3", "verif_snd3", "verif_thd3":
+			// projection of a two- or three-result call: fst(f(x)), snd(f(x)), fst3/snd3/thd3(g(x))
 			if len(e.Args) != 1 {
-				return env.fail(e, "fst/snd take one two-valued call")
+				return env.fail(e, "projections take one multi-valued call")
 			}
 			tp, ok := env.typeOf(e.Args[0]).(*types.Tuple)
-			if !ok || tp.Len() != 2 {
-				return env.fail(e, "fst/snd of a non-pair")
+			want := 2
+			if strings.HasSuffix(id.Name, "3") {
+				want = 3
+			}
+			if !ok || tp.Len() != want {
+				return env.fail(e, "projection of a call with the wrong number of results")
 			}
 			tv := env.eval(e.Args[0])
 			k := 0
-			if id.Name == "verif_snd" {
+			switch id.Name {
+			case "verif_snd", "verif_snd3":
 				k = 1
+			case "verif_thd3":
+				k = 2
 			}
 			lo, hi := tupleRange(tp, k)
 			return Val{ts: tv.ts[lo:hi]}
@@ -532,7 +539,21 @@ func (env *specEnv) call(e *ast.CallExpr) Val {
 			if len(v.ts) == 0 {
 				return env.fail(e, "raw() of empty value")
 			}
+			if _, isIface := env.typeOf(e.Args[0]).Underlying().(*types.Interface); isIface && len(v.ts) == 2 {
+				return Val{ts: []Term{v.ts[1]}} // interface: the payload, as lastarg() records it
+			}
 			return Val{ts: []Term{asInt(v.ts[0], leaves(env.typeOf(e.Args[0]))[0].Sort)}}
+		case "verif_haskey":
+			// haskey(m, k): the map has an entry for k
+			mt, ok := env.typeOf(e.Args[0]).Underlying().(*types.Map)
+			if !ok || !x.regMap(mt) {
+				return env.fail(e, "haskey on an unsupported map type")
+			}
+			m := env.eval(e.Args[0])
+			kv := env.eval(e.Args[1])
+			has, _, _ := mapKeys(mt)
+			k := x.mapKeyTerm(mt.Key(), kv)
+			return Val{ts: []Term{and(not(eq(m.ts[0], "0")), app("select", app("select", x.hget(env.h(), has), m.ts[0]), k))}}
 		case "verif_same":
 			// identity of two values Go cannot compare (func values, slices): leaf-wise equality
 			a, b := env.eval(e.Args[0]), env.eval(e.Args[1])
